@@ -26,6 +26,10 @@ def gen_repo(rng, quick):
     names_b = ["pkg%d-1.0-0.conda" % i for i in range(rng.randint(0, 4 if quick else 6))]
     if rng.random() < 0.15:
         names_a.append("ünï\ud800.tar.bz2")
+    if rng.random() < 0.5:
+        # artifacts listed in an order that is not the sorted one (files written by other tools, appended entries)
+        rng.shuffle(names_a)
+        rng.shuffle(names_b)
     r = {}
     fields = ["info", "packages", "packages.conda", "signatures", "removed", "repodata_version"]
     rng.shuffle(fields)
@@ -75,6 +79,16 @@ def run(ctx):
     cases = []
     for r in repos:
         cases.append({"w": wire.case("sign_all_value", r, rng.choice(KEYS)), "meta": {"tag": "repo"}})
+    # signed outputs whose canonical length sits on and around multiples of 64 KiB (block-wise writers): sized through a free-text field
+    def sized_repo(target):
+        mdv = {"name": "a", "version": "1.0", "build_number": 0, "depends": [], "size": 1}
+        r = {"info": {"subdir": "noarch", "comment": ""}, "packages": {"b-1.0-0.tar.bz2": mdv, "a-1.0-0.tar.bz2": dict(mdv, name="b")}, "packages.conda": {}}
+        out = dict(r, signatures={n: {PUBHEX[0]: E.raw_sig(0, m)} for n, m in r["packages"].items()})
+        r["info"]["comment"] = "x" * (target - len(E.canon(out)))
+        return r
+    for k in ((1,) if ctx.quick else (1, 2, 3)):
+        for d in (-1, 0, 1, 2):
+            cases.append({"w": wire.case("sign_all_value", sized_repo(65536 * k + d), KEYS[0]), "meta": {"tag": "repo"}})
     for r in MALFORMED:
         cases.append({"w": wire.case("sign_all_value", r, KEYS[0]), "meta": {"tag": "malformed"}})
     for k in BADKEYS:
